@@ -3,15 +3,20 @@
 //  alg:*    Translation / Transformation / SignedPermutation: transform_up == M x + t (own long
 //           double model of the matrix handed to the constructor), transform_down o transform_up
 //           == id, rotate_down o rotate_up == id, calc_inverse, make_rotation == Rodrigues formula
-//           re-derived in long double, SignedPermutation == explicit +-1 matrix (exact).
+//           re-derived in long double, SignedPermutation == explicit +-1 matrix (exact),
+//           make_permutation(Axis, QuarterTurn) == own integer rotation model == make_rotation.
 //  <type>#i every surface instance x every transform of the alphabet: the sense computed by the
 //           *transformed* surface (SurfaceTranslator for Translation, SurfaceTransformer for
 //           Transformation) at transform_up(x) equals the sign of the ORIGINAL implicit function
 //           (long double, from the original surface.data()) at x, for all lattice points and
-//           for points 2^-12 either side of generated on-surface points.
+//           for points 2^-12 and 2^-24 either side of generated on-surface points.
 //  simp:*   SurfaceSimplifier (default tolerance 1e-10, thorough also 1e-6), applied repeatedly
 //           until it reports "no simplification": the region {sense == s} is the same before
 //           and after (the simplifier may flip s; it says so through the Sense pointer).
+//           Special instances sit on the decision boundaries: offsets below the tolerance (must
+//           snap) and between the tolerance and its square root (must not snap: the 2^-24 ring
+//           [2^-12 ring for tol 1e-6] of near-surface points lies inside the shell a wrongly
+//           snapped surface sweeps).
 //  tsimp:*  TransformSimplifier output moves no lattice point by more than the tolerance.
 //
 // Rounding model for the transformed sense: the transformed coefficients are sums of <= 16
@@ -389,6 +394,104 @@ static void check_signed_permutations(XCtx& cx)
     }
 }
 
+//! make_permutation(Axis, QuarterTurn): a rotation about a coordinate axis by q quarter turns.
+//! Own model: with (ax, u, v) a cyclic (right-handed) triple the rotation by angle q pi/2 maps
+//!   x_ax -> x_ax,  x_u -> c x_u - s x_v,  x_v -> s x_u + c x_v,   c, s = cos, sin(q pi/2) in {0,+-1}
+//! (same convention as make_rotation(Axis, Turn), which check_make_rotation ties to the Rodrigues
+//! formula); all arithmetic is exact.  Checked: the SignedPermutation's rotate_up / transform_up /
+//! rotate_down on the algebra points, its permutation() table, and agreement of every entry with
+//! make_rotation(ax, Turn{q/4}) rounded to the nearest integer.
+static void check_make_permutation(XCtx& cx)
+{
+    auto pts = algebra_points();
+    for (int a = 0; a < 3; ++a)
+        for (int qt : {-5, -2, -1, 0, 1, 2, 3, 4, 5, 6, 7})
+        {
+            std::string cid = fmt("alg:make_permutation:ax%d,q%d", a, qt);
+            if (!cx.R.want(cid))
+                continue;
+            int const m4 = ((qt % 4) + 4) % 4;
+            int const cs[] = {1, 0, -1, 0}, sn[] = {0, 1, 0, -1};
+            int const c = cs[m4], sv = sn[m4];
+            int const ua = (a + 1) % 3, va = (a + 2) % 3;
+            int W[3][3] = {};
+            W[a][a] = 1;
+            W[ua][ua] = c;
+            W[ua][va] = -sv;
+            W[va][ua] = sv;
+            W[va][va] = c;
+            SignedPermutation sp;
+            try
+            {
+                sp = make_permutation(Axis(a), QuarterTurn{qt});
+            }
+            catch (std::exception const& e)
+            {
+                cx.viol("make_permutation:throws", cid,
+                        [&] { return fmt("make_permutation(axis %d, %d quarter turns) threw: %s", a, qt, e.what()); });
+                continue;
+            }
+            cx.tags["alg:make_permutation-checked"]++;
+            cx.tags[c != 0 ? "alg:make_permutation:half-or-full-turn" : "alg:make_permutation:quarter-turn"]++;
+            bool bad = false;
+            std::string how;
+            // against make_rotation (entries of a quarter-turn rotation are within 1 ulp of 0, +-1)
+            Mat3 m = make_rotation(Axis(a), Turn{qt / 4.0});
+            for (int i = 0; i < 3; ++i)
+                for (int j = 0; j < 3; ++j)
+                    if (std::lround(m[i][j]) != W[i][j])
+                    {
+                        // the harness model and make_rotation disagree: make_rotation is judged by
+                        // check_make_rotation; report here as well, under its own signature
+                        cx.viol("make_rotation:quarter-turn-not-integer-model", cid, [&] {
+                            return fmt("axis=%d q=%d entry[%d][%d]=%.17g model %d", a, qt, i, j, m[i][j], W[i][j]);
+                        });
+                    }
+            auto tab = sp.permutation();
+            for (int i = 0; i < 3 && !bad; ++i)
+            {
+                int col = -1;
+                for (int j = 0; j < 3; ++j)
+                    if (W[i][j] != 0)
+                        col = j;
+                if (int(tab[Axis(i)].second) != col || (tab[Axis(i)].first == '-') != (W[i][col] < 0))
+                {
+                    bad = true;
+                    how = fmt("row %d is %c%d, expected %c%d", i, tab[Axis(i)].first, int(tab[Axis(i)].second),
+                              W[i][col] < 0 ? '-' : '+', col);
+                }
+            }
+            for (auto const& p : pts)
+            {
+                if (bad)
+                    break;
+                double x[3] = {p[0], p[1], p[2]};
+                Real3 up = sp.rotate_up(R3(x)), tu = sp.transform_up(R3(x)), dn = sp.rotate_down(R3(x));
+                cx.evals += 3;
+                for (int i = 0; i < 3; ++i)
+                {
+                    double wu = 0, wd = 0;
+                    for (int j = 0; j < 3; ++j)
+                    {
+                        wu += W[i][j] * x[j];  // exact: one non-zero term
+                        wd += W[j][i] * x[j];
+                    }
+                    if (up[i] != wu || tu[i] != wu || dn[i] != wd)
+                    {
+                        bad = true;
+                        how = fmt("x=%s rotate_up=(%g,%g,%g) rotate_down=(%g,%g,%g), component %d expected up %g down %g",
+                                  p3(x).c_str(), up[0], up[1], up[2], dn[0], dn[1], dn[2], i, wu, wd);
+                        break;
+                    }
+                }
+            }
+            if (bad)
+                cx.viol("make_permutation:not-the-axis-rotation", cid, [&] {
+                    return fmt("make_permutation(axis %d, %d quarter turns): %s", a, qt, how.c_str());
+                });
+        }
+}
+
 static void check_make_rotation(XCtx& cx)
 {
     std::string cid = "alg:make_rotation";
@@ -549,13 +652,17 @@ static SurfPoints make_points(OQ const& q, std::vector<double> const& lat, int n
         if (!(gn > 1e4L * KT * EPS * G.gm) || gn == 0)
             continue;
         double sc = std::max({1.0, std::fabs(o.p[0]), std::fabs(o.p[1]), std::fabs(o.p[2])});
-        for (int sgn : {1, -1})
-        {
-            double p[3];
-            for (int i = 0; i < 3; ++i)
-                p[i] = double(ld(o.p[i]) + sgn * 0x1p-12L * sc * G.g[i] / gn);
-            add(p, true);
-        }
+        // two rings: 2^-12 sc (judged for every tolerance) and 2^-24 sc (just above the margin
+        // 16 tol (M + 1 + |x| + |x|^2) of check_same_region for tol = 1e-10: a surface moved by
+        // 1e-7 .. 1e-5 changes the sense of these points)
+        for (ld ring : {0x1p-12L, 0x1p-24L})
+            for (int sgn : {1, -1})
+            {
+                double p[3];
+                for (int i = 0; i < 3; ++i)
+                    p[i] = double(ld(o.p[i]) + sgn * ring * sc * G.g[i] / gn);
+                add(p, true);
+            }
     }
     return sp;
 }
@@ -778,6 +885,27 @@ static void enumerate_simplifier_specials(vf::Run& R, uint64_t first_global, Fn&
         V("simp-gq", i++, GeneralQuadric{Real3{0, 0, 0}, Real3{-k, k, 0}, Real3{0, 0, k}, 0.5}, fn);
         V("simp-gq", i++, GeneralQuadric{Real3{k, -k, 0}, Real3{0, 0, k}, Real3{0, k, 0}, 0.5}, fn);
     }
+    // offsets between the tolerance and its square root (1e-10 .. 1e-5 for the default tolerance,
+    // 1e-6 .. 1e-3 for the thorough tier's 1e-6): must NOT be snapped; a simplifier comparing
+    // |origin|^2 with tol instead of tol^2, or using SoftZero{sqrt(tol)}, moves the surface by the
+    // offset, which the 2^-24 (2^-12) ring of near-surface points sees
+    for (double p : {1e-7, -0x1p-20, 1e-5, -0x1p-17, 0x1p-11, -1e-4})
+    {
+        V("simp-px", i++, PlaneAligned<Axis::x>{p}, fn);
+        V("simp-pz", i++, PlaneAligned<Axis::z>{p}, fn);
+    }
+    for (auto const& uv : std::vector<std::array<double, 2>>{
+             {1e-7, 0}, {0, -0x1p-20}, {0x1p-20, 1e-7}, {1e-5, 0}, {0, 0x1p-17}, {-0x1p-11, 0}, {0, 1e-4}})
+    {
+        V("simp-cz", i++, CylAligned<Axis::z>{Real3{uv[0], uv[1], 0}, 1.0}, fn);
+        V("simp-cx", i++, CylAligned<Axis::x>{Real3{0, uv[0], uv[1]}, 0.5}, fn);
+        V("simp-cy", i++, CylAligned<Axis::y>{Real3{uv[1], 0, uv[0]}, 2.0}, fn);
+        V("simp-s", i++, Sphere{Real3{uv[0], uv[1], -uv[0]}, 2.0}, fn);
+        V("simp-s", i++, Sphere{Real3{uv[1], uv[0], uv[1]}, 0.5}, fn);
+        V("simp-kx", i++, ConeAligned<Axis::x>{Real3{uv[1], uv[0], 0.25}, 1.0}, fn);
+        V("simp-ky", i++, ConeAligned<Axis::y>{Real3{uv[0], 0.5, uv[1]}, 0.5}, fn);
+        V("simp-kz", i++, ConeAligned<Axis::z>{Real3{uv[0], uv[1], uv[0]}, 2.0}, fn);
+    }
 }
 
 }  // namespace
@@ -804,6 +932,7 @@ int part_xform(vf::Run& R)
     if (R.shard() == 0 || R.replay())
     {
         check_signed_permutations(cx);
+        check_make_permutation(cx);
         check_make_rotation(cx);
         check_transform_simplifier(cx, xfs);
     }
